@@ -45,12 +45,21 @@ def strip_comments(src):
 # Lean side
 
 def theorem_names(prop):
+    """fully qualified names of every `theorem` in Props/CXX.lean (tracks namespace / end)"""
     path = os.path.join(LEAN, "AskarModel", "Props", f"{prop}.lean")
     src = strip_comments(open(path).read())
-    ns = re.findall(r"^namespace\s+(\S+)", src, flags=re.M)
-    namespace = ns[0] if ns else ""
-    names = re.findall(r"^(?:private\s+|protected\s+)?theorem\s+(\S+)", src, flags=re.M)
-    return [f"{namespace}.{n}" if namespace else n for n in names]
+    stack, names = [], []
+    for ln in src.splitlines():
+        m = re.match(r"^namespace\s+(\S+)", ln)
+        if m:
+            stack.append(m.group(1)); continue
+        m = re.match(r"^end\s+(\S+)", ln)
+        if m and stack and stack[-1] == m.group(1):
+            stack.pop(); continue
+        m = re.match(r"^(?:private\s+|protected\s+)?theorem\s+(\S+)", ln)
+        if m:
+            names.append(".".join(stack + [m.group(1)]))
+    return names
 
 
 def model_exe(prop):
